@@ -231,19 +231,13 @@ def ref_slice(names_values, include, omit, rmap, keyfn):
 
 
 def ref_read_set(fields, omit, rmap):
-    """Attributes that map to declared fields: the field names themselves and the names the
-    renaming sends to a field; minus the omitted ones."""
-    attrs = set(fields) | {k for k, v in rmap.items() if v in fields}
-    return attrs - set(omit or ())
-
-
-def code_read_set(fields, omit, rename_spec):
-    """What the code's pairwise, growing scan of `rename` collects (used by classify only)."""
-    attrs = set(fields)
-    for k, v in (rename_spec["pairs"] if rename_spec else []):
-        if v in attrs:
-            attrs.add(k)
-    return attrs - set(omit or ())
+    """The attributes whose destination (rename target, else own name) is a declared field; `omit`
+    removes names, except renamed ones (renamed attributes are included regardless of omit)."""
+    out = set()
+    for x in set(fields) | set(rmap):
+        if rmap.get(x, x) in fields and (x in rmap or x not in (omit or ())):
+            out.add(x)
+    return out
 
 
 class C20(Property):
@@ -265,9 +259,15 @@ class C20(Property):
         "Flatland.C20.Proofs.object_roundtrip_sparse",
     ]
     level_text = "proof"
-    level_note = ("all clauses proved for every value type, field list, include/omit/rename and key function; "
-                  "'reads exactly' is full (C20_full_holds) for Dict and SparseDict since fixes 2460dd6 / 29e8575; object_roundtrip has a "
-                  "Dict and a SparseDict form; member.set() is a parameter (C04)")
+    level_note = ("slice_spec / include_omit_exclusive / update_object_frame / set_by_object_reads (C20_full_holds) / set_by_object_values are "
+                  "proved for every value type, field list, include/omit/rename and key function (Dict and SparseDict, fixes 2460dd6, 29e8575, "
+                  "786474b). PARTIAL: the consequence clause object_roundtrip (Dict and SparseDict forms) is proved under the reading of "
+                  "'inverse renaming' spelled out by its hypotheses: identity key function; rename sources distinct, all declared fields; rename "
+                  "targets distinct, none a declared field; the object has no readable attribute named like a field or a target beforehand; "
+                  "non-strict policy; read back with rename^-1 and no include/omit. Outside these hypotheses the oracle checks only the two "
+                  "halves (update_object writes the slice, set_by_object stores the winners), not the composed law. In the model `reads` is the "
+                  "candidate list (the code calls hasattr on every candidate); spec outKey restates the three documented rules and is close to "
+                  "the code by nature; member.set() is a parameter (C04)")
     technique = "Lean 4 theorems about a hand-written model + differential correspondence with /repo + Python oracle of spec B"
     trusted_base = [
         "Python objects modelled as attribute stores (plain attributes and properties whose getter returns or raises AttributeError); "
@@ -310,6 +310,11 @@ class C20(Property):
              "rename": {"as": "gen", "pairs": [["x", "a"]]}, "key": None, "obj": obj},
             {"op": "setby", "fields": f, "policy": "subset", "include": ["b"], "omit": None,
              "rename": {"as": "pairs", "pairs": [["x", "a"]]}, "key": None, "obj": obj},
+            # fixed 786474b: an attribute renamed to a non-field is not read; rename overrides omit
+            {"op": "setby", "fields": f, "policy": "subset", "include": None, "omit": None,
+             "rename": {"as": "dict", "pairs": [["a", "z"]]}, "key": None, "obj": obj},
+            {"op": "setby", "fields": f, "policy": "subset", "include": None, "omit": ["x"],
+             "rename": {"as": "dict", "pairs": [["x", "a"]]}, "key": None, "obj": obj},
             # pinned: include=[] means "not supplied"
             {"op": "slice", "fields": f, "policy": "subset", "include": [], "omit": None, "rename": None, "key": None, "obj": []},
             # renamed-and-omitted field is still emitted under the new key (planned drill of DESIGN 9.1)
